@@ -134,6 +134,9 @@ class Summary:
         self.params_out = {}       # value of each parameter variable at function exit (for in-place updates)
 
 
+ALL_INTERPS = []       # every interpreter built during one check (to know which functions the check analysed)
+
+
 class PartialV:
     """functools.partial(f, *args, **kwargs) (only built by domains that set model_partial)"""
     __slots__ = ("fv", "args", "kwargs", "node")
@@ -156,6 +159,7 @@ class Interp:
         self.memo = {}
         self.inprogress = {}
         self.visited_funcs = set()
+        ALL_INTERPS.append(self)
         self.call_sites = 0
         self.notes = []            # (qname, line, message): unmodelled constructs met
         self._module_ctx = {}
